@@ -33,16 +33,21 @@ impl Wake for Noop {
     fn wake(self: Arc<Self>) {}
 }
 
-/// Poll a future that must complete without suspending (an uncontended
-/// tokio mutex, a ready hyper body).
+/// Drive a future of the code under test that runs on PRIVATE state (nothing
+/// else can hold what it waits for) to completion: polled until it is ready.
+/// A future that suspends on its own account (a `yield_now`, a zero-length
+/// sleep) completes after a few polls; one that is still pending after many is
+/// waiting for something that cannot happen here.
 pub fn now_or_never<T>(fut: impl Future<Output = T>) -> Option<T> {
     let w = Waker::from(Arc::new(Noop));
     let mut cx = Context::from_waker(&w);
     let mut fut = Box::pin(fut);
-    match Pin::new(&mut fut).poll(&mut cx) {
-        Poll::Ready(v) => Some(v),
-        Poll::Pending => None,
+    for _ in 0..10_000 {
+        if let Poll::Ready(v) = Pin::new(&mut fut).poll(&mut cx) {
+            return Some(v);
+        }
     }
+    None
 }
 
 pub fn clone_tm(m: &TimedMessage) -> TimedMessage {
